@@ -32,6 +32,8 @@ type raceState struct {
 	seen    map[string]bool
 	enabled bool
 	order   []lockEdge // lock-order edges: a mutex acquired while another is held
+	reRead  []lockEdge        // a read lock taken on an RWMutex the same operation already holds in shared mode
+	excl    map[int]map[*Value]string // role -> mutexes it locks exclusively at some point (site)
 }
 
 // lockEdge: role acquired `to` (exclusively or not) while holding `from`.
@@ -95,6 +97,17 @@ func (ex *Exec) raceLock(name string, recv Value) {
 	}
 	if strings.HasSuffix(name, ".RLock") || strings.HasSuffix(name, ".Lock") {
 		x := strings.HasSuffix(name, ".Lock")
+		if x {
+			if rs.excl == nil {
+				rs.excl = map[int]map[*Value]string{}
+			}
+			if rs.excl[rs.role] == nil {
+				rs.excl[rs.role] = map[*Value]string{}
+			}
+			rs.excl[rs.role][p.cell] = ex.repoSite()
+		} else if hx, ok := rs.held[p.cell]; ok && !hx {
+			rs.reRead = append(rs.reRead, lockEdge{role: rs.role, from: p.cell, to: p.cell, site: ex.repoSite()})
+		}
 		for h, hx := range rs.held {
 			if h != p.cell {
 				rs.order = append(rs.order, lockEdge{role: rs.role, from: h, to: p.cell, fromX: hx, toX: x, site: ex.repoSite()})
@@ -187,6 +200,13 @@ func init() {
 				if e1.role == 1 && e2.role == 2 && e1.from == e2.to && e1.to == e2.from && (e1.fromX || e1.toX || e2.fromX || e2.toX) {
 					inverted = fmt.Sprintf("lock-order inversion: %s acquires in one order, %s in the other", e1.site, e2.site)
 				}
+			}
+		}
+		// recursive read lock: one operation takes RLock on an RWMutex it already holds in shared mode while the other
+		// operation locks it exclusively - a writer arriving in between blocks the second RLock and waits for the first
+		for _, e := range rs.reRead {
+			if site, ok := rs.excl[3-e.role][e.from]; ok && inverted == "" {
+				inverted = fmt.Sprintf("recursive read lock: %s re-acquires an RWMutex in shared mode that %s locks exclusively", e.site, site)
 			}
 		}
 		if inverted != "" {
